@@ -46,10 +46,18 @@ func jsonValue(t *rapid.T, o JSONOpts, depth int) *jsonv.Value {
 	switch k {
 	case 0:
 		n := rapid.IntRange(0, 4).Draw(t, "members")
+		wide := depth == o.Depth && rapid.IntRange(0, 15).Draw(t, "wideobj") == 0
+		if wide {
+			// now and then many members (whatever is indexed, pooled or grown in steps of 8, 16, 32 ...)
+			n = rapid.SampledFrom([]int{8, 9, 16, 17, 33, 64, 65, 130}).Draw(t, "widemembers")
+		}
 		v := &jsonv.Value{Kind: jsonv.Object}
 		seen := map[string]bool{}
 		for i := 0; i < n; i++ {
 			key := JSONString(t, "key")
+			if wide {
+				key = fmt.Sprintf("%s%d", key, i)
+			}
 			if seen[key] && !o.DupKeys {
 				continue
 			}
@@ -60,12 +68,22 @@ func jsonValue(t *rapid.T, o JSONOpts, depth int) *jsonv.Value {
 		return v
 	case 1:
 		n := rapid.IntRange(0, 4).Draw(t, "items")
+		if depth == o.Depth && rapid.IntRange(0, 15).Draw(t, "widearr") == 0 {
+			n = rapid.SampledFrom([]int{8, 9, 16, 17, 33, 64, 65, 130}).Draw(t, "wideitems")
+		}
 		v := &jsonv.Value{Kind: jsonv.Array}
 		for i := 0; i < n; i++ {
 			v.Items = append(v.Items, jsonValue(t, o, depth-1))
 		}
 		return v
 	case 2, 3:
+		if rapid.IntRange(0, 31).Draw(t, "longstr") == 0 {
+			// a long string (buffers of 64 ... 4096 bytes and the lengths just beyond them)
+			unit := JSONString(t, "unit") + "x"
+			n := rapid.SampledFrom([]int{63, 64, 65, 255, 256, 257, 511, 513, 1023, 1025, 4095, 4097}).Draw(t, "strlen")
+			rs := []rune(strings.Repeat(unit, n/len([]rune(unit))+1))
+			return &jsonv.Value{Kind: jsonv.String, Str: string(rs[:n])} // (n characters: the byte length varies with the unit)
+		}
 		return &jsonv.Value{Kind: jsonv.String, Str: JSONString(t, "str")}
 	case 4, 5:
 		pool := plainNums
